@@ -335,7 +335,7 @@ pub fn def() -> PropDef {
         rule: "byte strings of length 48/96/96/192 for the four formats: valid encodings of every point class (identity, subgroup, full-curve, each small prime order dividing the cofactor, order l*r, walks P+[k]G) and uniform / all-zero bytes, then 0..2 edits (force each of the 8 flag combinations, replace one 48-byte coordinate component by q+k, q-1-k, 2^381, 2^381-1, 0, small, uniform; +-delta; bit flip; x without a square root; x of another point; flip sort flag). Oracle: model decoder returning the accepted point or the first failing stage in the order form flag, infinity/sort flags, coordinate range, curve, subgroup; checked and unchecked variants; no panic. Non-trivial = input passes the form-flag stage; distinct = distinct cases",
         needs_pairing: false,
         subs: vec![
-            Box::new(Sub { name: "decoders", rule: "four decoders, checked and unchecked, vs model decoder (accepted point or first failing stage)", quick: 8000, thorough: 250_000, strategy: || boxed(dec_case_strategy()), check: check_dec_any }),
+            Box::new(Sub { name: "decoders", rule: "four decoders, checked and unchecked, vs model decoder (accepted point or first failing stage)", quick: 24_000, thorough: 250_000, strategy: || boxed(dec_case_strategy()), check: check_dec_any }),
             super::corpus_sub_decode(),
         ],
         assumptions: {
